@@ -275,8 +275,6 @@ _re_one_space_or_end   = re.compile(r'\s|$')
 
 _re_alnum              = re.compile(rf'[{pat_alnum}]')
 _re_alnum_or_dot       = re.compile(rf'[{pat_alnum}.]')
-_re_delim_open_alnums  = re.compile(rf'[{pat_alnum}.][({{[][{pat_alnum}]')
-_re_delim_close_alnums = re.compile(rf'[{pat_alnum}.][)}}\]][{pat_alnum}]')
 
 _re_line_end_ws_maybe_cont = re.compile(r'\s*\\?$')
 
@@ -1887,10 +1885,10 @@ def _undelimit_node(self: fst.FST) -> bool:
         bn_end_col += 1
 
     else:  # when no trailing comma need to make sure par is not separating us from an alphanumeric on either side, and if so then insert a space at the end before deleting the right par
-        if end_col >= 2 and _re_delim_close_alnums.match(lines[end_ln], end_col - 2):
+        if bn_end_col and _re_alnum_or_dot.match(lines[bn_end_ln], bn_end_col - 1) and _re_alnum.match(lines[end_ln], end_col):  # what follows the delimiter would join the end of the last element (whatever is in between is deleted)
             self._put_src(' ', end_ln, end_col, end_ln, end_col, False, self)
 
-    head_alnums = col and _re_delim_open_alnums.match(lines[ln], col - 1)  # if open has alnumns on both sides then insert space there too
+    head_alnums = col and _re_alnum_or_dot.match(lines[ln], col - 1) and _re_alnum.match(lines[b0_ln], b0_col)  # if what precedes the open delimiter would join the start of the first element then insert space there too
 
     self._put_src(None, bn_end_ln, bn_end_col, end_ln, end_col, True, self)
     self._put_src(None, ln, col, b0_ln, b0_col, False)
